@@ -491,6 +491,29 @@ func (pl *planner) buildForced(ri int, class string, modes map[string]string, ad
 		}
 	}
 	plan.URL = "/" + strings.Join(segs, "/")
+	{
+		// fiber's default (non-strict) routing treats /x and /x/ as one path: when the other spelling of this
+		// request's concrete path is matched by ANOTHER template of the same verb, which of the two fiber
+		// serves is framework policy (first registered wins) - not judged for fiber
+		var plainSegs []string
+		for _, sg := range rt.Segs {
+			if projgen.IsParamSeg(sg) {
+				plainSegs = append(plainSegs, pathVals[strings.Trim(sg, "{}")])
+			} else {
+				plainSegs = append(plainSegs, sg)
+			}
+		}
+		alt := append(append([]string{}, plainSegs...), "")
+		if n := len(plainSegs); n > 0 && plainSegs[n-1] == "" {
+			alt = plainSegs[:n-1]
+		}
+		if ah := matchRoute(pl.routes, m.Verb, alt); ah != ri && ah != -1 {
+			if plan.Expect.PolicyFor == nil {
+				plan.Expect.PolicyFor = map[string]string{}
+			}
+			plan.Expect.PolicyFor["fiber"] = "non-strict routing: the path without/with the trailing slash is matched by another template"
+		}
+	}
 	if len(qOrder) > 0 {
 		var parts []string
 		for _, k := range qOrder {
